@@ -194,6 +194,12 @@ func (c *conn) serve() error {
 				// the context was canceled for some reason, perhaps timeout or
 				// due to a flush call. We treat this as a condition where a
 				// response should not be sent.
+			case <-c.ctx.Done():
+				return c.ctx.Err()
+			case <-c.closed:
+				// the writer is gone (e.g. after a write error): nobody
+				// will ever receive from responses.
+				return c.err
 			}
 			delete(tags, resp.Tag)
 		case <-c.ctx.Done():
